@@ -1,4 +1,4 @@
-import Wal.Model.Eval
+import Wal.Lemmas.Global
 /-!
 # C06 — Core evaluator: lexical scoping, closures, left-to-right single evaluation
 
@@ -68,12 +68,14 @@ theorem fn_captures_definition_env (st : St) (ps b : Sx) (bs : List Sx) (v : Sx)
 and the caller's environment is current again afterwards**; the arguments are evaluated first, in the caller's
 environment (`bindParams` runs in `st`) -/
 theorem call_frame (rec : St → Sx → Res) (st : St) (cenv : Nat) (ps body : Sx) (nm : String) (args : List Sx)
-    (binds : List (String × Sx)) (st1 : St) (hb : bindParams rec st ps args = .ok (binds, st1)) :
+    (binds : List (String × Sx)) (st1 : St) (hb : bindParams rec st ps args = .ok (binds, st1))
+    (hlive : cenv < st1.frames.size) :
     evalClosure rec st (.clo cenv ps body nm) args =
       (match rec { (st1.pushFrame (some cenv) binds).1 with env := (st1.pushFrame (some cenv) binds).2 } body with
        | .error e => .error e
        | .ok (v, st3) => .ok (v, { st3 with env := st.env })) := by
-  simp only [evalClosure, hb, bind, Except.bind, pure, Except.pure]
+  have hg : ¬ (cenv ≥ st1.frames.size) := by omega
+  simp only [evalClosure, hb, bind, Except.bind, pure, Except.pure, hg, if_false]
   cases rec { (st1.pushFrame (some cenv) binds).1 with env := (st1.pushFrame (some cenv) binds).2 } body with
   | error e => rfl
   | ok p => obtain ⟨v, st3⟩ := p; rfl
@@ -90,8 +92,10 @@ theorem call_env_restored (rec : St → Sx → Res) (st st' : St) (clo : Sx) (ar
       simp only [hb] at h
       split at h
       · simp at h
-      · simp only [Except.ok.injEq, Prod.mk.injEq] at h
-        rw [← h.2]
+      · split at h
+        · simp at h
+        · simp only [Except.ok.injEq, Prod.mk.injEq] at h
+          rw [← h.2]
   | _ => simp [evalClosure] at h
 
 /-- **calling a function with the wrong number of arguments raises an error** -/
@@ -132,6 +136,22 @@ theorem let_vanishes (rec : St → Sx → Res) (st st' : St) (args : List Sx) (v
         · simp only [Except.ok.injEq, Prod.mk.injEq] at h
           rw [← h.2]
   · simp at h
+
+/-! ## … for every expression: the environment is restored by every completed evaluation -/
+
+/-- **whatever an expression does — `let`s, calls of closures, macro expansion, `eval` of computed code, scans,
+any nesting of these — when its evaluation completes the environment that was current before is current again**
+(`Glob.eval_P`: induction on the fuel, one lemma per operator of the model; `Glob.Ok` says the frame heap is acyclic
+and the current environment allocated, which holds for the fresh interpreter and is itself preserved) -/
+theorem eval_restores_env (n : Nat) (st st' : St) (e v : Sx) (hok : Glob.Ok st)
+    (h : eval n st e = .ok (v, st')) : st'.env = st.env :=
+  (Glob.eval_P n st e v st' h hok).2.1
+
+/-- frames are never deallocated or re-parented by an evaluation: the heap only grows (closures keep their
+definition environment alive) -/
+theorem eval_frames_grow (n : Nat) (st st' : St) (e v : Sx) (hok : Glob.Ok st)
+    (h : eval n st e = .ok (v, st')) : st.frames.size ≤ st'.frames.size :=
+  (Glob.eval_P n st e v st' h hok).2.2
 
 /-! ## define / set -/
 
